@@ -241,6 +241,12 @@ def build(carrier: str, cfg: dict, script: list[str], **kw: Any) -> Scenario:
         handlers = [dict(id='p', on='create', script=['ok'])]
         return C11Scenario(handlers=handlers, subs={'p': [dict(id='s', script=script, **h)]}, user=[(1.0, 'create', 'a')], horizon=50.0,
                            cfg=cfg, script=script, carrier=carrier, subject='p/s', settings=st, **kw)
+    if carrier == 'parent':
+        # the limits of a PARENT whose own code succeeds but whose sub-handler keeps failing: every cycle with an unfinished child
+        # is an attempt of the parent (retried after the child's delay); `script` is the child's
+        handlers = [dict(id='p', on='create', script=['ok'], **h)]
+        return C11Scenario(handlers=handlers, subs={'p': [dict(id='s', script=script)]}, user=[(1.0, 'create', 'a')], horizon=50.0,
+                           cfg=cfg, script=script, carrier=carrier, subject='p', settings=st, **kw)
     if carrier == 'daemon':
         handlers = [dict(id='dm', on='daemon', body='scripted', script=script, **h)]
         return C11Scenario(handlers=handlers, user=[(1.0, 'create', 'a')], horizon=50.0, cfg=cfg, script=script, carrier=carrier, subject='dm',
@@ -264,6 +270,8 @@ def run(tier: str, seed: int) -> CheckResult:
     for carrier in ('change', 'sub', 'daemon', 'timer', 'activity'):
         for cfg, script in itertools.product(cfgs, scs):
             plain.append(build(carrier, cfg, script, delays=False, early_user=False, time_dev=False))
+    for cfg, script in itertools.product(cfgs, (['temp', 'ok'], ['temp', 'temp', 'ok'], ['temp', 'temp', 'temp', 'temp', 'ok'], ['temp2~1', 'temp', 'ok'])):
+        plain.append(build('parent', cfg, script, delays=False, early_user=False, time_dev=False))
     crash = [build(carrier, cfg, script, kills=True, delays=False, early_user=False, time_dev=False)
              for carrier in ('change', 'sub')
              for cfg in [c for c in cfgs if c['backoff'] == 2.0 and c['errors'] in (None, 'PERMANENT')]
@@ -287,7 +295,7 @@ def run(tier: str, seed: int) -> CheckResult:
     return CheckResult(
         prop='C11', tier=tier, seed=seed, stats=stats, violations=viols, scenarios=nscen,
         bound_requested=max(g[2] for g in groups), extra={'groups': info, 'configs': len(cfgs), 'scripts': len(scs)},
-        rule="policy product: carrier {change handler, sub-handler, daemon, timer, startup activity} x errors mode x retries {None,1,2,3} x "
+        rule="policy product: carrier {change handler, sub-handler, parent of a failing sub-handler, daemon, timer, startup activity} x errors mode x retries {None,1,2,3} x "
              "timeout {None,5} x backoff {default 8, 2} x outcome scripts (len <= 2 quick / 3 thorough over ok/temp(3)/temp(None)/perm/arb, "
              "some with handler run time); exact agreement of (time, retry) sequences with retry_ref; crash group: kill before/after the "
              "server applied each in-flight PATCH + restart for change and sub-handlers with the statement-level laws; non-trivial = "
